@@ -83,6 +83,9 @@ above so that the baseline is exit 0):
       (seeded) waitSendPub: sentinel at the head of a delay window no longer broadcast at once, coalesced away by a
                publication queued behind it ........................... exit 1  position-loss-not-ended (aimed scenario 1:
                Publish 1,2; Drop 2; +50 s; TickOne(first) -> sentinel queued; Deliver 1; WriterTick)
+      (seeded C38-3) the queue size guard also drops the insufficient-state marker (shared helper submit()) .. exit 1
+               position-loss-not-ended (aimed scenario 3: Publish 1-4; Deliver 1; WriterTake(park); Deliver 2,3 queued,
+               Deliver 4 dropped by the medium; +50 s; TickOne(A) invalid -> marker must be queued; WriterDone; B must end)
       (seeded) CheckPosition bumps positionCheckTime on skipped requests too: staggered connections starve the check
                ........................................................ exit 1  position-loss-not-ended (aimed scenario 2:
                +50 s TickOne(A) performed; +12 s TickOne(B) skipped; Publish 1; Drop 1; +38 s TickOne(A) must be performed)
@@ -268,7 +271,7 @@ def c38(c):
         #    explicit clock: per-connection ticks, positionCheckTime moved by performed checks only
         f4 = ex.submit(c.tlc_exhaustive, 'Medium', 'Medium', 'timed_quick.cfg' if quick else 'timed.cfg', workers=4, timeout=3000)
         #    aimed behaviours (scripted schedules: sentinel first in a delay window then a publication; staggered ticks)
-        f5 = ex.submit(c.tlc, 'Medium', 'MediumAim', 'aim.cfg', simulate=150 if quick else 600, depth=40, timeout=3000)
+        f5 = ex.submit(c.tlc, 'Medium', 'MediumAim', 'aim.cfg', simulate=220 if quick else 800, depth=40, timeout=3000)
         r = f1.result()
         c.log('TLC exhaustive (1 positioned + 1 plain subscriber, all option sets): %d distinct / %d generated, depth %d' % (r['distinct'], r['states'], r['depth']))
         if f2 is not None:
@@ -304,8 +307,9 @@ def c38(c):
             uniq.append(b)
     c.log('TLC simulate (aimed): %d behaviours, %d distinct (scenario, first connection, options)' % (len(abehs), len(uniq)))
     if not any(b[0]['scen'] == 1 and b[0]['opts']['shared'] and b[0]['opts']['delay'] for b in uniq) or \
-       not any(b[0]['scen'] == 2 and b[0]['opts']['shared'] for b in uniq):
-        raise vf.Inconclusive('the aimed behaviours do not cover both scenarios with the shared position check')
+       not any(b[0]['scen'] == 2 and b[0]['opts']['shared'] for b in uniq) or \
+       not any(b[0]['scen'] == 3 and b[0]['opts']['shared'] for b in uniq):
+        raise vf.Inconclusive('the aimed behaviours do not cover all three scenarios with the shared position check')
     ares = c.harness(binp, 'mdreplay', {'qmax': 1, 'manual': True, 'behaviours': uniq}, timeout=900)
     c.absorb(ares)
     c.cov['traces_validated_against_impl'] += ares['completed']
@@ -336,7 +340,7 @@ _note13 = ('Bounds: exhaustive 2 keys, join/leave, <=4 adds (5 thorough), MaxSiz
            'Trusted: TLC, lib/tlaparse.py, the harness monitors, runtime timers.')
 _note38 = ('Bounds: exhaustive 12 option sets, <=2 publications (3 thorough), 1 wire fault, 1 position check, 1 resubscribe, queue limit 1 byte (1-byte payloads), subscribers {p1,n} and {p1,p2}; '
            'explicit-clock configuration: 2 positioned subscribers, check delay 40 s, clock steps {12,50} ({12,38,50} thorough), <=3 (4) per-connection ticks; '
-           'aimed behaviours: 2 scripted schedules x 2 first connections x 12 option sets; '
+           'aimed behaviours: 3 scripted schedules (the third for the 4 queue-without-delay option sets) x 2 first connections x option sets = 56; '
            'replay: 120 (1500) simulated behaviours with 3 subscribers, <=6 publications, 2 wire faults, 2 position checks. Trusted: TLC, lib/tlaparse.py, harness projection/monitor code, cl library.')
 META = {
     'C13': dict(level='model_checking',
